@@ -794,14 +794,24 @@ EXPORT errno_t _wcsnorm_reorder_s_chk(wchar_t *restrict dest, rsize_t dmax,
         cur_cc = _combin_class(cp);
         if (cur_cc != 0) {
             if (seq_max < cc_pos + 1) {         /* extend if need */
+                UNWIF_cc *seq_new;
                 seq_max = cc_pos + CC_SEQ_STEP; /* new size */
                 if (CC_SEQ_SIZE == cc_pos) {    /* seq_ary full */
-                    seq_ext = (UNWIF_cc *)malloc(seq_max * sizeof(UNWIF_cc));
-                    memcpy(seq_ext, seq_ary, cc_pos * sizeof(UNWIF_cc));
+                    seq_new = (UNWIF_cc *)malloc(seq_max * sizeof(UNWIF_cc));
+                    if (seq_new)
+                        memcpy(seq_new, seq_ary, cc_pos * sizeof(UNWIF_cc));
                 } else {
-                    seq_ext = (UNWIF_cc *)realloc(seq_ext,
+                    seq_new = (UNWIF_cc *)realloc(seq_ext,
                                                   seq_max * sizeof(UNWIF_cc));
                 }
+                if (unlikely(!seq_new)) {
+                    if (seq_ext)
+                        free(seq_ext);
+                    handle_werror(orig_dest, orig_dmax,
+                                  "wcsnorm_reorder_s: out of memory", ENOMEM);
+                    return RCNEGATE(ENOMEM);
+                }
+                seq_ext = seq_new;
                 seq_ptr = seq_ext; /* use seq_ext from now */
             }
 
@@ -1026,15 +1036,27 @@ EXPORT errno_t _wcsnorm_compose_s_chk(wchar_t *restrict dest, rsize_t dmax,
                 pre_cc = cur_cc;
                 if (cur_cc != 0 || !(p < e)) {
                     if (seq_max < cc_pos + 1) {         /* extend if need */
+                        uint32_t *seq_new;
                         seq_max = cc_pos + CC_SEQ_STEP; /* new size */
                         if (CC_SEQ_SIZE == cc_pos) {    /* seq_ary full */
-                            seq_ext =
+                            seq_new =
                                 (uint32_t *)malloc(seq_max * sizeof(uint32_t));
-                            memcpy(seq_ext, seq_ary, cc_pos * sizeof(uint32_t));
+                            if (seq_new)
+                                memcpy(seq_new, seq_ary,
+                                       cc_pos * sizeof(uint32_t));
                         } else {
-                            seq_ext = (uint32_t *)realloc(
+                            seq_new = (uint32_t *)realloc(
                                 seq_ext, seq_max * sizeof(uint32_t));
                         }
+                        if (unlikely(!seq_new)) {
+                            if (seq_ext)
+                                free(seq_ext);
+                            handle_werror(orig_dest, orig_dmax,
+                                          "wcsnorm_compose_s: out of memory",
+                                          ENOMEM);
+                            return RCNEGATE(ENOMEM);
+                        }
+                        seq_ext = seq_new;
                         seq_ptr = seq_ext; /* use seq_ext from now */
                     }
                     seq_ptr[cc_pos] = cp;
@@ -1164,6 +1186,10 @@ EXPORT errno_t _wcsnorm_s_chk(wchar_t *restrict dest, rsize_t dmax,
         tmp_ptr = tmp_stack;
     else
         tmp_ptr = tmp = (wchar_t *)malloc((len + 2) * sizeof(wchar_t));
+    if (unlikely(!tmp_ptr)) {
+        handle_werror(dest, dmax, "wcsnorm_s: out of memory", ENOMEM);
+        return RCNEGATE(ENOMEM);
+    }
 
     rc = _wcsnorm_reorder_s_chk(tmp_ptr, len + 2, dest, len, destbos);
     if (unlikely(rc)) {
